@@ -170,7 +170,7 @@ theorem traceHelper_some (text : Bytes) (r0 : Rec) (h0 : r0.code = none) :
       ({ hdr := r0.hdr.set hContentType (bytesOfString "message/http"), code := some 200,
          snap := some (r0.hdr.set hContentType (bytesOfString "message/http")),
          body := r0.body + (htmlEscape text).length }, htmlEscape text) := by
-  simp [traceHelper, Rec.write, Rec.writeHeader, h0]
+  simp [traceHelper, Rec.write, Rec.writeHeader, h0, informational_200]
 
 /-! ## The TRACE short-circuit -/
 
